@@ -14,7 +14,7 @@ import os
 import random
 import warnings
 
-from . import common, c19_tr
+from . import common, c19_tr, c19_pairs
 
 warnings.filterwarnings("ignore")
 
@@ -39,29 +39,7 @@ def regenerate():
 
 # ----------------------------------------------------------------------------------------------- operators
 
-class SplitRng:
-    """structure from a fixed stream (so that the grid of cells does not depend on the seed), values from the seed"""
-
-    def __init__(self, struct, val):
-        self.s, self.v = struct, val
-
-    def randint(self, a, b):
-        return self.v.randint(a, b)
-
-    def choice(self, seq):
-        return self.s.choice(seq)
-
-    def random(self):
-        return self.s.random()
-
-    def getrandbits(self, k):
-        return self.s.getrandbits(k)
-
-    def shuffle(self, x):
-        return self.s.shuffle(x)
-
-    def randrange(self, *a):
-        return self.s.randrange(*a)
+SplitRng = c19_pairs.SplitRng
 
 
 def operators(seed, quick):
@@ -427,31 +405,162 @@ def shard_src(rows):
 
 # ----------------------------------------------------------------------------------------------- run
 
-def key_of(clsname, case):
-    return {"class": clsname, "op": case["op"], "shape_class": case["kind"]}
+def key_of(r):
+    """structural key of a cell.  Operator (+) operator cells additionally carry the runtime class of the right operand,
+    the method the call dispatches to (`impl`: the class whose __add__ / mul (+ _mul_matrix) / matmul runs) and how the left
+    operand was produced (`left`: direct constructor, or the collapsed structure of a composite made by a public method)"""
+    case = r["case"]
+    k = {"class": r["cls"], "op": case["op"], "shape_class": case["kind"]}
+    if case["op"] in c19_pairs.PAIR_OPS:
+        k.update({"rhs_class": r.get("rhs_cls"), "impl": r.get("impl_of"), "left": r.get("left", "direct")})
+    return k
 
 
-def run_grid(ctx, quick, limit_report=None):
-    """returns list of records; reports predicate failures through ctx.violation"""
+def impl_of(op, o):
+    """the method Python dispatches the operation to, as `DefiningClass.method`"""
+    t = type(op)
+
+    def q(name):
+        f = getattr(t, name, None)
+        return getattr(f, "__qualname__", name)
+    if o in ("add_op", "sub_op", "torch_add", "torch_sub", "radd", "rsub", "torch_add_t", "torch_sub_t", "torch_add_rt",
+             "torch_sub_rt"):
+        return q("__add__")
+    if o in ("mul_op", "torch_mul", "rmul", "torch_mul_t", "torch_mul_rt"):
+        return q("mul") + "/" + q("_mul_matrix")
+    if o in ("matmul_op", "torch_matmul"):
+        return q("matmul")
+    if o in ("rmatmul_dunder", "torch_matmul_rt"):
+        return q("rmatmul") + "/" + q("matmul")
+    if o == "add_low_rank":
+        return q("add_low_rank")
+    return o
+
+
+def collapsed_signature(op):
+    """class of a composite operator with its operator arguments: diagonal-family arguments by class, the others as `_`"""
+    diag = ("DiagLinearOperator", "ConstantDiagLinearOperator", "IdentityLinearOperator",
+            "KroneckerProductDiagLinearOperator", "ZeroLinearOperator")
+    kids = []
+    for a in getattr(op, "_args", ()):
+        if hasattr(a, "_args") and hasattr(a, "to_dense"):
+            n = type(a).__name__
+            kids.append(n if n in diag else "_")
+    return type(op).__name__ + ("(" + ",".join(kids) + ")" if kids else "")
+
+
+def _build_left(tag, e):
+    from . import opbuild as ob
+    try:
+        op = ob.build(e)
+        D = ob.dense(e)
+    except Exception:
+        return None
+    sh = list(D.shape)
+    if list(op.shape) != sh:
+        return None
+    return op, D, sh
+
+
+def _derive_rng(seed, tag, name):
+    return random.Random("%d-derive-%s-%s" % (seed, tag, name))
+
+
+def select_derived(seed, quick):
+    """{tag: [derivation names]}: composite left operands produced by public methods, one (quick) / two (thorough)
+    per collapsed structure x batched? x square? — chosen deterministically in grid order"""
+    import torch
+    torch.set_num_threads(1)
+    per = 1 if quick else 2
+    seen, out = {}, {}
+    for tag, e in operators(seed, quick):
+        b = _build_left(tag, e)
+        if b is None:
+            continue
+        op, D, sh = b
+        sq = sh[-1] == sh[-2]
+        for name in (c19_pairs.SQ_DERIVED if sq else c19_pairs.RECT_DERIVED):
+            try:
+                L, DL = c19_pairs.derive(name, op, D, c19_pairs.derive_arg(name, sh, _derive_rng(seed, tag, name)))
+                if list(L.shape) != list(DL.shape):
+                    continue
+            except Exception:
+                continue
+            sg = (collapsed_signature(L), len(sh) > 2, sq)
+            inner = c19_pairs.signature(L, 1)
+            got = seen.setdefault(sg, [])
+            if len(got) >= per or inner in got:
+                continue
+            got.append(inner)
+            out.setdefault(tag, []).append(name)
+    return out
+
+
+def run_unit(args):
+    """all cases of one left operand instance (worker process): the tensor-operand / index / constructor cases, the
+    operator (+) operator class-pair table, the reflected forms, and the composite left operands derived from it"""
     import torch
     torch.set_num_threads(1)
     from . import opbuild as ob
+    seed, quick, tag, e, dnames = args
+    b = _build_left(tag, e)
+    if b is None:
+        return []
+    op, D, sh = b
+    clsname = type(op).__name__
     recs = []
-    for tag, e in operators(ctx.seed, quick):
+    rng = random.Random("%d-cases-%s" % (seed, tag))
+    for case in cases_for(sh, rng) + ctor_cases(clsname, sh, rng):
+        impl, ref = execute(op, D, case)
+        recs.append({"tag": tag, "expr": e, "cls": clsname, "shape": sh, "case": case, "impl": impl, "torch": ref})
+
+    def pairs(L, DL, cases, left, derive):
+        cn = type(L).__name__
+        for case in cases:
+            if derive is not None:
+                case = dict(case, derive=derive)
+            try:
+                impl, ref, rcls = c19_pairs.execute_pair(L, DL, case, attempt)
+            except Exception as ex:                           # the right operand could not be built: not a case
+                continue
+            recs.append({"tag": tag, "expr": e, "cls": cn, "shape": list(DL.shape), "case": case, "impl": impl, "torch": ref,
+                         "rhs_cls": rcls, "impl_of": impl_of(L, case["op"]), "left": left})
+    B = sh[:-2]
+    sq = sh[-1] == sh[-2]
+    if not (quick and B and not sq):                          # quick: rectangular batched lefts only in the tensor grid
+        prng = random.Random("%d-pairs-%s" % (seed, tag))
+        pairs(op, D, c19_pairs.pair_cases(sh, seed, ob.ALL) + c19_pairs.reflected_cases(sh, prng), "direct", None)
+    for name in dnames:
+        darg = c19_pairs.derive_arg(name, sh, _derive_rng(seed, tag, name))
         try:
-            op = ob.build(e)
-            D = ob.dense(e)
+            L, DL = c19_pairs.derive(name, op, D, darg)
         except Exception:
             continue
-        sh = list(D.shape)
-        if list(op.shape) != sh:
-            continue
-        clsname = type(op).__name__
-        rng = random.Random("%d-cases-%s" % (ctx.seed, tag))
-        for case in cases_for(sh, rng) + ctor_cases(clsname, sh, rng):
-            impl, ref = execute(op, D, case)
-            recs.append({"tag": tag, "expr": e, "cls": clsname, "shape": sh, "case": case, "impl": impl, "torch": ref})
+        pairs(L, DL, c19_pairs.pair_cases(list(DL.shape), seed, ob.ALL, reduced=True), collapsed_signature(L),
+              {"name": name, "arg": darg})
     return recs
+
+
+WORKERS = 3
+
+
+def run_grid(ctx, quick, limit_report=None):
+    """returns list of records (deterministic order); up to WORKERS processes"""
+    seed = ctx.seed
+    units = None
+    try:
+        import multiprocessing as mp
+        with mp.get_context("fork").Pool(WORKERS) as pool:
+            dsel = pool.apply(select_derived, (seed, quick))
+            units = [(seed, quick, tag, e, dsel.get(tag, [])) for tag, e in operators(seed, quick)]
+            parts = pool.map(run_unit, units, chunksize=2)
+    except (OSError, ImportError, RuntimeError) as ex:        # no process pool available: same work, in process
+        if hasattr(ctx, "say"):
+            ctx.say("process pool unavailable (%r): running the grid in process" % (ex,))
+        dsel = select_derived(seed, quick)
+        units = [(seed, quick, tag, e, dsel.get(tag, [])) for tag, e in operators(seed, quick)]
+        parts = [run_unit(u) for u in units]
+    return [r for p in parts for r in p]
 
 
 def predicate_failures(ctx, recs):
@@ -460,7 +569,7 @@ def predicate_failures(ctx, recs):
     seen = set()
     for r in recs:
         if r["torch"][0] == "raise" and r["impl"][0] == "ok":
-            key = key_of(r["cls"], r["case"])
+            key = key_of(r)
             sig = json.dumps(key, sort_keys=True)
             if sig in seen:
                 continue
@@ -590,13 +699,20 @@ def run(ctx):
                 break
 
     # coverage
+    def cell(r):
+        return (r["cls"], r["case"]["op"], r["case"]["kind"], r.get("rhs_cls"), r.get("left"))
     cells = {}
     for r in recs:
-        k = (r["cls"], r["case"]["op"], r["case"]["kind"])
+        k = cell(r)
         cells[k] = cells.get(k, 0) + 1
     invalid = [r for r in recs if r["torch"][0] == "raise"]
-    inv_cells = {(r["cls"], r["case"]["op"], r["case"]["kind"]) for r in invalid}
-    silent_cells = {(r["cls"], r["case"]["op"], r["case"]["kind"]) for r in invalid if r["impl"][0] == "ok"}
+    inv_cells = {cell(r) for r in invalid}
+    silent_cells = {cell(r) for r in invalid if r["impl"][0] == "ok"}
+    pair_recs = [r for r in recs if r["case"]["op"] in c19_pairs.PAIR_OPS and r.get("rhs_cls") != "Tensor"]
+    class_pairs = {(r["cls"], r["rhs_cls"]) for r in pair_recs}
+    class_pairs_invalid = {(r["cls"], r["rhs_cls"]) for r in pair_recs if r["torch"][0] == "raise"}
+    dispatch_targets = {r.get("impl_of") for r in pair_recs}
+    left_forms = {r.get("left") for r in pair_recs}
     ops = {}
     for r in recs:
         ops[r["case"]["op"]] = ops.get(r["case"]["op"], 0) + 1
@@ -652,7 +768,15 @@ def replay(rp):
         return 1
     op = ob.build(rp["expr"])
     D = ob.dense(rp["expr"])
-    impl, ref = execute(op, D, rp["case"])
+    case = rp["case"]
+    if case["op"] in c19_pairs.PAIR_OPS:
+        if case.get("derive"):
+            print("left operand: %s applied to %s" % (case["derive"]["name"], type(op).__name__))
+            op, D = c19_pairs.derive(case["derive"]["name"], op, D, case["derive"]["arg"])
+        impl, ref, rcls = c19_pairs.execute_pair(op, D, case, attempt)
+        print("right operand class:", rcls, "dispatches to:", impl_of(op, case["op"]))
+    else:
+        impl, ref = execute(op, D, case)
     print("class:", type(op).__name__, "shape:", list(D.shape))
     print("case:", json.dumps(rp["case"])[:400])
     print("implementation:", impl)
